@@ -228,40 +228,48 @@ class C08:
                 ctx.bad("R08.1", file, "iterate_over_valid_clips", f"yield {show(y.term)[:60]} if {show(y.live)[:60]}",
                         "clips are not paired by clip.uuid (dictionary of annotations keyed by clip.uuid, looked up with the "
                         "prediction's clip.uuid, yielding (annotations, predictions))", y.lineno)
-        # callers bind the right parameters
+        # callers bind the right parameters; every evaluated clip is collected -- read off the element-wise view of the list
+        # of clip evaluations that _evaluate_clips returns (filled by a loop or built by comprehensions alike)
+        from sa import seqview
         ev = ctx.summ.of_func(DET, "_evaluate_clips")
-        it = [l for l in ev.loops.values() if l.iter[0] == "call" and l.iter[1] == ("global", f"{COMMON}:iterate_over_valid_clips", "func")]
         site = f"{self.file}:{ev.node.lineno} _evaluate_clips"
-        if len(it) != 1:
-            ctx.undec("R08.1", site, "loop over iterate_over_valid_clips not found")
-            return
-        b, _, _, _ = bind_args(it[0].iter, s.params)
-        if b.get("clip_predictions") == ("param", "clip_predictions") and b.get("clip_annotations") == ("param", "clip_annotations"):
-            ctx.ok("R08.1", site, "predictions/annotations passed to the matching parameters")
-        else:
-            ctx.bad("R08.1", self.file, "_evaluate_clips", f"iterate_over_valid_clips({show(it[0].iter)[:80]})",
-                    "clip predictions and clip annotations are passed to the wrong parameters", ev.node.lineno)
-        e = ("elem", it[0].id)
         ec = ctx.summ.of_func(DET, "evaluate_clip")
-        calls = [c for c in ev.calls if c.term[1] == ("global", f"{DET}:evaluate_clip", "func")]
-        if len(calls) == 1:
-            b, _, _, _ = bind_args(calls[0].term, ec.params)
-            if b.get("clip_annotations") == ("sub", e, ("const", 0)) and b.get("clip_predictions") == ("sub", e, ("const", 1)) \
-                    and b.get("encoder") == ("param", "encoder"):
-                ctx.ok("R08.1", f"{self.file}:{calls[0].lineno} _evaluate_clips", "evaluate_clip(clip_annotations=annotations, clip_predictions=predictions)")
-            else:
-                ctx.bad("R08.1", self.file, "_evaluate_clips", f"evaluate_clip({show(calls[0].term)[:80]})",
-                        "the yielded (annotations, predictions) pair is bound to the wrong parameters of evaluate_clip", calls[0].lineno)
-        else:
-            ctx.undec("R08.1", site, "evaluate_clip call not found")
-        # every evaluated clip is collected
-        apps = [c for c in ev.calls if c.term[1][0] == "attr" and c.term[1][2] == "append" and it[0].id in c.loops]
-        rets = ev.returns
-        if calls and any(a.term[2] == (("sub", calls[0].term, ("const", 2)),) and all(x[0] == "inloop" for x in conjuncts(a.live)) for a in apps):
-            ctx.ok("R08.1", site, "every clip evaluation is appended to the result")
-        else:
+        EC = ("global", f"{DET}:evaluate_clip", "func")
+        IT = ("global", f"{COMMON}:iterate_over_valid_clips", "func")
+        rets = ev.raw_returns
+        if len(rets) != 1 or rets[0].term[0] != "tuple" or not rets[0].term[1]:
+            ctx.undec("R08.1", site, "does not return a tuple whose first component is the list of clip evaluations")
+            return
+        clips_list = rets[0].term[1][0]
+        I = ("param", "__i__")
+        item = seqview.item(clips_list, I)
+        call = None
+        if item is not None and item[0] == "sub" and item[2] == ("const", 2) and item[1][0] == "call" and item[1][1] == EC:
+            call = item[1]
+        if call is None:
             ctx.bad("R08.1", self.file, "_evaluate_clips", "evaluated_clips.append(evaluated_clip)",
-                    "not every evaluated clip is collected unconditionally", ev.node.lineno)
+                    f"not every evaluated clip is collected unconditionally (the i-th collected element is {show(item)[:80] if item else 'filtered / undetermined'})",
+                    ev.node.lineno)
+            return
+        ctx.ok("R08.1", site, "every clip evaluation is collected: element i is evaluate_clip(pair i)[2]")
+        b, _, _, _ = bind_args(call, ec.params)
+        src = None
+        a_i, p_i = b.get("clip_annotations"), b.get("clip_predictions")
+        if a_i is not None and p_i is not None and a_i[0] == "sub" and p_i[0] == "sub" and a_i[1] == p_i[1] and a_i[1][0] == "sub" and a_i[1][2] == I:
+            src = a_i[1][1]
+        if src is not None and a_i[2] == ("const", 0) and p_i[2] == ("const", 1) and b.get("encoder") == ("param", "encoder") and src[0] == "call" and src[1] == IT:
+            ctx.ok("R08.1", site, "evaluate_clip(clip_annotations=annotations, clip_predictions=predictions) for every yielded pair")
+            bb, _, _, _ = bind_args(src, s.params)
+            if bb.get("clip_predictions") == ("param", "clip_predictions") and bb.get("clip_annotations") == ("param", "clip_annotations"):
+                ctx.ok("R08.1", site, "predictions/annotations passed to the matching parameters")
+            else:
+                ctx.bad("R08.1", self.file, "_evaluate_clips", f"iterate_over_valid_clips({show(src)[:80]})",
+                        "clip predictions and clip annotations are passed to the wrong parameters", ev.node.lineno)
+        elif src is None or not (src[0] == "call" and src[1] == IT):
+            ctx.undec("R08.1", site, f"loop over iterate_over_valid_clips not found (pairs come from {show(src)[:60] if src else '?'})")
+        else:
+            ctx.bad("R08.1", self.file, "_evaluate_clips", f"evaluate_clip({show(call)[:80]})",
+                    "the yielded (annotations, predictions) pair is bound to the wrong parameters of evaluate_clip", ev.node.lineno)
 
     # ------------------------------------------------------------------ R08.2 / R08.3 / R08.4 / R08.7
     def check_evaluate_clip(self):
